@@ -195,11 +195,14 @@ fn judge(rep: &mut Report, sc: &Scenario, main_bytes: &[(String, Vec<u8>)], lib_
         if e.named_hit.is_some_and(|h| h.1) { rep.count("name.walk_passes_class_without_entry"); }
         if e.cal_via_tableless { rep.count("calamus.walk_passes_class_without_entry"); }
         if e.named_in_library { rep.count("name.from_entry_of_a_library_class"); }
+        if e.naming_type_behind_visited { rep.count("name.naming_super_type_behind_already_visited_super_type"); }
+        if e.named_hit.is_some_and(|h| h.0 >= 4) { rep.count("name.super_type_depth4plus"); }
+        if ts == "inserted" && e.delegate_inherited_name.is_some() { rep.count(if e.delegate_inherited_name.as_deref() == Some(e.named.as_str()) { "target.inserted_although_an_ancestor_entry_gives_the_delegate_the_same_name" } else { "target.inserted_while_an_ancestor_entry_names_the_delegate_differently" }); }
         fp += &format!("|{ts}/{nsrc}/{}", e.named_hit.is_some_and(|h| h.1));
     }
     if changes > 0 { rep.count("scenarios.with_expected_change"); } else { rep.count("scenarios.expected_unchanged"); }
     if changes > 0 || cands.iter().any(|c| c.expect == Expect::MustNot && c.why != "not synthetic") { rep.nontrivial(common::rng::fnv_str(&fp) ^ sc.main.classes.len() as u64); }
-    if confirmed && changes > 0 && sc.main.classes.len() <= 14 { rep.sample(|| json!({"source": source, "main_jar": sc.main.render(), "calamus": sc.calamus.render(), "mappings_in": sc.mappings.render(),
+    if confirmed && changes > 0 && rep.want_sample() && (if source == "generated" { sc.main.classes.len() <= 40 } else { rep.cur.1 == 4 }) { rep.sample(|| json!({"source": source, "main_jar (classes with methods)": JarD { classes: sc.main.classes.iter().filter(|c| if source == "generated" { !c.methods.is_empty() } else { c.methods.iter().any(|m| m.access & SYNTHETIC != 0) }).cloned().collect() }.render(), "main_jar_hierarchy": sc.main.classes.iter().map(|c| format!("{} : {} {:?}", c.name, c.super_name, c.interfaces)).collect::<Vec<_>>(), "calamus": sc.calamus.render(), "mappings_in": sc.mappings.render(),
         "expected_effects": effs.iter().map(|e| json!({"bridge": e.bridge, "class": e.class, "key": e.key, "named": e.named, "mode": format!("{:?}", e.expect)})).collect::<Vec<_>>(),
         "mappings_out": real.out.as_ref().ok().map(|o| maps::from_quill(o).render())})); }
 }
@@ -249,8 +252,8 @@ fn main() {
         .assume("array types are bridge-compatible only with themselves (JVMS 4.3.2: an array type is not an object type)");
     if replay.is_none() {
         for k in gen::KINDS { meta.oblige(format!("motif {k}: generated >= 20 times"), rep.get(&format!("kind.{k}")) >= 20); }
-        for k in ["target.inserted", "target.overwritten", "target.overwritten_with_children", "target.already_same", "target.had_no_named_name", "target.class_lacks",
-            "name.unchanged_intermediary_name", "name.own_class_entry", "name.super_type_depth1", "name.super_type_depth2plus", "name.walk_passes_class_without_entry", "name.from_entry_of_a_library_class", "calamus.walk_passes_class_without_entry",
+        for k in ["target.inserted", "target.overwritten", "target.overwritten_with_children", "target.already_same", "target.had_no_named_name", "target.class_lacks", "target.inserted_although_an_ancestor_entry_gives_the_delegate_the_same_name", "target.inserted_while_an_ancestor_entry_names_the_delegate_differently",
+            "name.unchanged_intermediary_name", "name.own_class_entry", "name.super_type_depth1", "name.super_type_depth2plus", "name.walk_passes_class_without_entry", "name.from_entry_of_a_library_class", "name.naming_super_type_behind_already_visited_super_type", "name.super_type_depth4plus", "calamus.walk_passes_class_without_entry",
             "hierarchy.unflagged_bridge_deciding_super_type_behind_already_visited_parent.stack_order", "hierarchy.unflagged_bridge_deciding_super_type_behind_already_visited_parent.queue_order",
             "hierarchy.unflagged_bridge_deciding_super_type_behind_already_visited_parent.recursive_preorder", "hierarchy.unflagged_bridge_decided_in_hierarchy_with_redundant_parent",
             "jar.zip", "jar.parsed", "jar.with_library", "open.detected", "scenarios.expected_unchanged"] {
